@@ -96,7 +96,7 @@ func checkConnCommands(cl sim.ConnSnap, serverID uint32, want hist.Pos) (string,
 		switch cmd.Kind {
 		case 0x03:
 			if setChecksumRe.MatchString(cmd.Query) {
-				setSeen = true
+				setSeen = !cmd.Rejected // a SET the master refused announced nothing
 			}
 		case 0x12:
 			dumps++
@@ -128,7 +128,7 @@ func checkConnCommands(cl sim.ConnSnap, serverID uint32, want hist.Pos) (string,
 }
 
 func checkC07(c *core.Ctx) {
-	c.SetRule("configurations: server ids {0,1,2^31-1,2^31,2^32-1,random} x file names {1 byte, 255 bytes, dots, digits, spaces, UTF-8, random printable} x offsets {4,2^31-1,2^31,2^32-1,random} (half chosen so that no byte of the offset equals the byte of the server id at the same position), sequences of 1..4 attempts on one streamer with SetBinlogPosition or the stored position in between; the master answers the dump with EOF; plus real histories streamed to EOF and a second attempt that must request the stored resume position; plus one or two attempts that fail before the dump request (8 kinds: refused dial, broken / refused handshake, rejected or unanswered SET, failed write of the dump command) followed by an attempt that must request the position that was set. Oracle on every connection: SET @master_binlog_checksum before the dump, exactly one dump per Stream call (over all connections it opened), blocking flag, server id, file bytes, uint32 offset. distinct by configuration; non-trivial iff offset != 4 or server id >= 2^31 or >= 2 attempts")
+	c.SetRule("configurations: server ids {0,1,2^31-1,2^31,2^32-1,random} x file names {1 byte, 255 bytes, dots, digits, spaces, UTF-8, random printable} x offsets {4,2^31-1,2^31,2^32-1,random} (half chosen so that no byte of the offset equals the byte of the server id at the same position), sequences of 1..4 attempts on one streamer with SetBinlogPosition or the stored position in between; the master answers the dump with EOF; plus real histories streamed to EOF and a second attempt that must request the stored resume position; plus one or two attempts that fail before the dump request (9 kinds: refused dial, broken / refused handshake, rejected or unanswered SET, failed write of the dump command, a dump command that goes out and is then reported as failed) followed by an attempt that must request the position that was set. Oracle on every connection: SET @master_binlog_checksum before the dump, exactly one dump per Stream call (over all connections it opened), blocking flag, server id, file bytes, uint32 offset. distinct by configuration; non-trivial iff offset != 4 or server id >= 2^31 or >= 2 attempts")
 	if c.Replay != "" {
 		var w struct {
 			Witness struct {
@@ -211,10 +211,14 @@ func c07SetRejected(c *core.Ctx, idx int) {
 		c.Cell("stream-not-returned(reported under C05)")
 		return
 	}
-	if res.DumpsMade > 0 {
-		c.Violation("c07:dump-after-rejected-set", fmt.Sprintf("the master answered SET @master_binlog_checksum with error %d, yet a binlog-dump request followed (Stream returned %s)", code, errStr(res.Err)),
-			witnessOf(map[string]interface{}{"mode": "set-rejected", "index": idx}, nil, s, nil))
-		return
+	// no dump request on the connection whose SET was refused (a library that
+	// retries on a fresh connection, where the SET is accepted, is in order)
+	if res.DumpConn != nil {
+		if key, _ := checkConnCommands(res.DumpConn.Snapshot(), scn.ServerID, scn.Attempts[0]); key == "dump-before-set" {
+			c.Violation("c07:dump-after-rejected-set", fmt.Sprintf("the master answered SET @master_binlog_checksum with error %d, yet a binlog-dump request followed on that connection (Stream returned %s)", code, errStr(res.Err)),
+				witnessOf(map[string]interface{}{"mode": "set-rejected", "index": idx}, nil, s, nil))
+			return
+		}
 	}
 	s.CallError(maxWait)
 	res2 := s.Attempt(run.NoFaults(), nil, maxWait)
@@ -262,6 +266,8 @@ func c07FailedBeforeDump(c *core.Ctx, idx int) {
 		scr.SetClose = true
 	case "dump-write-fail":
 		xo = &xport.Options{FailWriteN: 3} // writes: handshake response, SET query, dump request
+	case "dump-write-late-error":
+		xo = &xport.Options{LateFailN: 3}
 	}
 	if kind != "connect-refused" {
 		s.M.SetScripts(scr)
@@ -272,6 +278,11 @@ func c07FailedBeforeDump(c *core.Ctx, idx int) {
 		res := s.Attempt(run.NoFaults(), xo, maxWait)
 		if res.Verdict != run.Returned {
 			c.Cell("stream-not-returned(reported under C05)")
+			return
+		}
+		if res.DumpsMade > 1 {
+			c.Violation("c07:dump-requests-per-stream", fmt.Sprintf("one Stream call (failing by %s) put %d binlog-dump requests in front of the master over %d connection(s)", kind, res.DumpsMade, res.ConnsMade),
+				witnessOf(map[string]interface{}{"mode": "failed-before-dump", "index": idx, "kind": kind}, nil, s, nil))
 			return
 		}
 		s.CallError(maxWait)
